@@ -115,6 +115,22 @@ func registerSynth(_ []SynthPlugin, rec *synthRecorder) {
 				if resp != nil {
 					resp.YourIPAddr = []byte{10, 77, 0, byte(id)}
 				}
+			case "padto": // grow the reply to args[2] bytes with private-use options 225.. (as several long options would)
+				if resp != nil && len(args) > 2 {
+					target, _ := strconv.Atoi(args[2])
+					need := target - len(resp.ToBytes())
+					for code := 225; need >= 2 && code < 254; code++ {
+						chunk := need - 2
+						if chunk > 255 {
+							chunk = 255
+							if need-257 == 1 {
+								chunk = 254
+							}
+						}
+						resp.UpdateOption(dhcpv4.OptGeneric(dhcpv4.GenericOptionCode(code), make([]byte, chunk)))
+						need -= chunk + 2
+					}
+				}
 			}
 			e.RespOut, e.Stop, e.MarkOut = fmt.Sprintf("%p", out), stop, mark4(out)
 			rec.add(e)
